@@ -217,6 +217,20 @@ def check_ts(b, res: Result, s, n, off_min, pos):
                 res.violation("json", sig0 + ["from_dict-different-instant"], f"{js!r} read back as {back!r}, expected {dt.isoformat()}", w)
         except Exception as e:
             res.violation("json", sig0 + ["from_dict-raised:" + type(e).__name__], f"{js!r}: {e!r}", w)
+        # RFC 3339 allows a numeric UTC offset instead of "Z": the same instant written that way reads back as that instant
+        if 2 <= dt.year <= 9998:
+            from datetime import timezone as _tz, timedelta as _td
+
+            for off in (_td(hours=5, minutes=30), _td(hours=-8), _td(minutes=1)):
+                alt = dt.astimezone(_tz(off)).isoformat()
+                try:
+                    key = next(iter(d))
+                    back = _unwrap(pos, getattr(cls().from_dict({key: _wrap(pos, alt)}), nm))
+                    res.counters["json_offset_spellings"] += 1
+                    if back != dt:
+                        res.violation("json", sig0 + ["offset-spelling-read-as-other-instant"], f"{alt!r} read back as {back!r}, expected the instant {dt.isoformat()}", w)
+                except Exception as e:
+                    res.violation("json", sig0 + ["offset-spelling-raised:" + type(e).__name__], f"{alt!r}: {e!r}", w)
     if len(res.samples) < 2:
         res.sample({"datetime": dt.isoformat(), "position": pos, "seconds_nanos": list(got), "bytes": data.hex()})
 
@@ -289,6 +303,15 @@ def check_du(b, res: Result, s, n, pos):
             back2 = _unwrap(pos, getattr(cls().from_dict({key: _wrap(pos, rd.ToJsonString())}), nm))
             if back2 != td:
                 res.violation("json", sig0 + ["reference-spelling-read-differently"], f"{rd.ToJsonString()!r} read back as {back2!r}, expected {td!r}", w)
+            # the same span with the shortest fraction ("1.5s" for "1.500s"): read like the reference's parser reads it
+            if isinstance(js, str) and "." in js:
+                short = js[:-1].rstrip("0").rstrip(".") + "s"
+                rr2 = duration_pb2.Duration()
+                rr2.FromJsonString(short)
+                back3 = _unwrap(pos, getattr(cls().from_dict({key: _wrap(pos, short)}), nm))
+                res.counters["json_short_fraction_spellings"] += 1
+                if back3 != td or (rr2.seconds, rr2.nanos) != (s, n):
+                    res.violation("json", sig0 + ["short-fraction-spelling-read-differently"], f"{short!r} read back as {back3!r}, expected {td!r}", w)
         except Exception as e:
             res.violation("json", sig0 + ["from_dict-raised:" + type(e).__name__], f"{js!r}: {e!r}", w)
     if len(res.samples) < 3:
